@@ -315,7 +315,9 @@ def overrides(ctx, P):
                 ctx.violation(ob, "R12.override", "%s.%s" % (cname, m), "(%s)" % ", ".join(x.arg for x in a.args), "signature-mismatch", "override is not call-compatible with %s.%s" % (base, m), loc(fn))
             if (m in bv.table and m in P.classes[base].props) != (m in ci.props):
                 ctx.violation(ob, "R12.override", "%s.%s" % (cname, m), "property", "property-mismatch", "property/method kind differs from the base", loc(fn))
-        fn = ci.methods.get("increment_time")
+        r_ = P.view(cname).resolve("increment_time")
+        # the override may come from a mixin placed before the base class: what matters is that the exact view does not fall through to the float version
+        fn = r_[1] if r_ is not None and r_[0].name not in P.mro(base) else None
         got = unparse([x for x in ast.walk(fn) if isinstance(x, ast.Return)][0].value).replace(" ", "") if fn else "?"
         ps = [x.arg for x in fn.args.args][1:] if fn else ["a", "b"]
         ob.ok("%s.increment_time" % cname, got)
@@ -331,7 +333,7 @@ def overrides(ctx, P):
     for cname, m, inner in (("ExactNode", "get_service_time", "self.simulation.service_times[self.id_number][ind.customer_class]._sample(self.simulation.current_time,ind=ind)"),
                             ("ExactArrivalNode", "inter_arrival", "self.simulation.inter_arrival_times[nd][clss]._sample(self.simulation.current_time)")):
         fn = P.classes[cname].methods.get(m)
-        got = unparse([x for x in ast.walk(fn) if isinstance(x, ast.Return)][0].value).replace(" ", "") if fn else "?"
+        got = unparse(rules.inline_locals(fn, [x for x in ast.walk(fn) if isinstance(x, ast.Return)][0].value)).replace(" ", "") if fn else "?"
         ob.ok("%s.%s" % (cname, m), got[:60])
         alt = inner.replace("_sample(self.simulation.current_time", "_sample(t=self.simulation.current_time")
         if got not in ("Decimal(str(%s))" % inner, "Decimal(str(%s))" % alt):
